@@ -5,10 +5,11 @@ operations valid; it is not an oracle (the oracle is the Lean spec stream)."""
 import random
 
 KIND_SIZE = {'u8': 1, 'u16': 2, 'u32': 4, 'u64': 8, 'u128': 16, 'u256': 32, 'h256': 32, 'cont': 41,
-             'var': None}
+             'var': None, 'nest': None}
 PF = {'u8': 32, 'u16': 16, 'u32': 8, 'u64': 4, 'u128': 2, 'u256': 1, 'h256': None, 'cont': None,
-      'var': None}
-KINDS = list(KIND_SIZE)
+      'var': None, 'nest': None}
+KINDS = [k for k in KIND_SIZE if k != 'nest']   # 'nest' is only compiled for a few capacities
+NEST_N = [4, 8, 9, 33, 1024]
 MAPS = ['btree', 'vec', 'maxvec']
 SMALL_N = [1, 2, 3, 4, 5, 7, 8, 9, 16, 17, 32, 33]
 BIG = {'u8': [1024, 2 ** 40, 64, 100, 256], 'u16': [64, 100], 'u64': [1024, 2 ** 40],
@@ -54,6 +55,13 @@ def val(rng, kind, prev=None, pzero=0.4):
     """A value of `kind` as SSZ hex; zeros, small values, all-ones and repeats are favoured."""
     size = KIND_SIZE[kind]
     r = rng.random()
+    if kind == 'nest':
+        if r < pzero:
+            return hexs(bytes(8 * rng.choice([0, 1, 4, 5, 16])))
+        if prev is not None and r < pzero + 0.15:
+            return prev
+        n = rng.choice([0, 1, 3, 4, 5, 8, 9, 16])
+        return hexs(bytes(rng.choice([0, 1, 255, rng.randrange(256)]) for _ in range(8 * n)))
     if kind == 'var':
         if r < pzero:
             return hexs(bytes(rng.choice([0, 0, 1, 2, 8])))
